@@ -144,6 +144,27 @@ def send_guard(ctx, rule="R-SEND-GUARD", rule_src="R-SEND-SRC"):
                 srcv = None
                 if idsym is not None and idsym[0] == "attr" and idsym[1][0] == "call":
                     srcv = dict(idsym[1][3]).get("source_address")
+                elif idsym is not None:
+                    # the identifier composed arithmetically: its bits 0..7 in the bit-provenance domain
+                    def _leaf(x):
+                        if x == ADDR_F:
+                            return BV.input("HELD")
+                        if x[0] == "p":
+                            return BV.input("p_" + x[1])
+                        return None
+                    try:
+                        bv = BitEval(_leaf).ev(idsym)
+                        BitEval.pop_lossy()
+                        low = bv.window(0, 8)
+                        if low == [("b", "HELD", i) for i in range(8)]:
+                            srcv = ADDR_F
+                        elif all(b in (0, 1) for b in low):
+                            srcv = ("c", sum(b << i for i, b in enumerate(low)))
+                        elif BV(low, 0).has_top():
+                            ctx.unknown(rule_src, "ControllerApplication.%s: source address bits of the identifier %s not interpretable" % (name, pretty(idsym)[:60]))
+                            continue
+                    except AnalysisError:
+                        pass
             inst2 = "ControllerApplication.%s: source address is the held address" % name
             if name == "send_request":
                 is_norm, _ = G.implies(F, normal)
@@ -1050,7 +1071,7 @@ def claim_track(ctx, rule="R-CLAIM-TRACK"):
                     n += 1
                     inst = "%s, claim for %s: the claimed address is the held or the announced one when the frame is sent" % (fn, pretty(a)[:60])
                     from .common import ife_alts
-                    if all(x in (cur[ADDR_F], cur[ANN_F]) for x in ife_alts(a)):
+                    if all(x in (cur[ADDR_F], cur[ANN_F], NULL) for x in ife_alts(a)):
                         ctx.holds(rule, inst)
                     else:
                         ctx.violated(rule, f, inst, "the claim names %s while the CA records %s as held and %s as announced: the answer of the "
